@@ -123,7 +123,7 @@ def script(ctx, cfg, model, cookies):
             word.append((i, "ctl%03x" % fl, r.kind))
             continue
         if act < 0.25:
-            ctx.driver().reset()
+            ctx.reset_table()
             model.reset()
             ctx.history.append("RESET")     # marker understood by the replayer
             word.append(("reset",))
